@@ -73,6 +73,9 @@ def fs_event(kind, path, extra=None):
 
 
 def kill(proc):
+    if getattr(proc.sim, 'real_kill', False):
+        # cross-validation mode: this is a forked child, die for real
+        os._exit(137)
     proc.dead = True
     proc.sim.log.add(proc.pid, 'killed', None)
     raise SimKill()
@@ -139,11 +142,11 @@ class SimFileIO(io.FileIO):
 
 
 class Sandbox:
-    def __init__(self, sim, bufsize=8192):
+    def __init__(self, sim, bufsize=8192, root=None):
         self.sim = sim
         sim.sandbox = self
         self.bufsize = bufsize
-        self.root = tempfile.mkdtemp(prefix='dst-', dir='/dev/shm')
+        self.root = root or tempfile.mkdtemp(prefix='dst-', dir='/dev/shm')
         self.durable_hook = None     # fn(proc, path) after close / replace
         self.installed = False
 
